@@ -1,4 +1,5 @@
 import BstreamVerif.Lemmas.IndexInv
+import BstreamVerif.Facts
 import BstreamVerif.Model.FileSourceSeq
 /-!
 # C15 — Block indexes find what was indexed; indexed file streaming loses no match
@@ -425,5 +426,10 @@ example :
         ([10, 11, 12, 14, 15, 16, 17, 18].map blk) "" none []).1.map (·.num)) = [12, 14, 17] := by decide
 
 end FileSource
+
+/-- **tie by translation**: `lowBoundary` of transform/block_index_helpers.go (the range an index file covers),
+    translated from the source on every run, is the model's -/
+theorem index_lowBoundary_translated (i m : Nat) :
+    BstreamVerif.Facts.Gen.indexLowBoundary i m = BstreamVerif.Index.lowBoundary i m := rfl
 
 end BstreamVerif.Props.C15
